@@ -157,7 +157,8 @@ SettledChainViolations(lg) ==
                          \/ chain[h].exits # [i \in 1..Len(chain[h].exits) |->
                                LeafName(all[Len(LeavesUpTo(l2, chain[h].from - 1)) + i])]
                          \/ Len(chain[h].exits) # Len(LeavesUpTo(l2, chain[h].to)) - Len(LeavesUpTo(l2, chain[h].from - 1))
-                         \/ chain[h].claims # ClaimsIn(l2, chain[h].from, chain[h].to) }
+                         \/ chain[h].claims # [i \in DOMAIN ClaimsIn(l2, chain[h].from, chain[h].to) |->
+                                                    LeafName(PoolById(ClaimsIn(l2, chain[h].from, chain[h].to)[i]).atom)] }
           IN IF bad = {} THEN <<>> ELSE <<V("SettledExactlyOnceInOrder", [badHeights |-> bad])>>
 
 -----------------------------------------------------------------------------
@@ -193,7 +194,7 @@ EvSubmit ==
                      \o SubmitViolations(e) \o ClaimViolations(e)
      /\ ledger' = Append(ledger, [h |-> e.h, st |-> "Pending", from |-> e.meta.from, to |-> e.meta.from + e.meta.off,
                                   prev |-> e.prev, new |-> e.new, exits |-> e.exits,
-                                  claims |-> IF e.meta.from >= 1 THEN ClaimsIn(l2, e.meta.from, e.meta.from + e.meta.off) ELSE <<>>])
+                                  claims |-> [i \in DOMAIN e.imported |-> e.imported[i].leaf]])   \* what was really sent
   /\ l' = l + 1 /\ UNCHANGED <<t, l1, l2, rows, rowsBefore, lastTick>>
 
 EvAgMove ==
